@@ -772,6 +772,19 @@ def check(prop, tier, finish=True):
         if len(violations) >= 5:
             break
 
+    # a wedge verdict (an operation that did not return within the bound) is executed once more before it is reported:
+    # if it does not reproduce it was load on the machine, and the run is inconclusive about that behaviour
+    confirmed = []
+    for v in violations:
+        if v["event"] and '"a":"Wedged"' in v["event"].replace(" ", ""):
+            files = drive(wd, drivebin, {"wedge": [v["behaviour"]]})
+            rs = run_validation(wd, {"wedge": [v["behaviour"]]}, files, vspec, timeout=600)
+            if not rs["wedge"]["violation"]:
+                log("[inconclusive] a wedge in behaviour %s did not reproduce; not reported" % v["behaviour"]["id"])
+                continue
+        confirmed.append(v)
+    violations = confirmed
+
     # --- known findings: replay the witnesses against the strict invariant ---
     for k in KNOWN.get(prop, []):
         shape, trunc, ops = k["witness"](rng)
